@@ -17,9 +17,10 @@ open Osmium.StringTable (Table lookup)
 /-! ### domain -/
 
 /-- strings of an object fit `osmium::max_osm_string_length` (256 * 4 bytes; the builders refuse longer ones
-    and `decode_stringtable` rejects them) -/
+    and `decode_stringtable` rejects them) and are C strings (no NUL byte inside: `decode_stringtable` rejects
+    entries with an embedded NUL since repair da64936) — `StrOk` -/
 def MetaStrOk (m : Meta) : Prop :=
-  m.user.length ≤ 1024 ∧ ∀ tg ∈ m.tags, tg.key.length ≤ 1024 ∧ tg.value.length ≤ 1024
+  StrOk m.user ∧ ∀ tg ∈ m.tags, StrOk tg.key ∧ StrOk tg.value
 
 /-- the domain of the property for one object (PBF): ids int64, version / uid < 2^31, uint32 timestamp and
     changeset, int32 coordinates, member types node / way / relation, strings of at most 1024 bytes.
@@ -27,13 +28,13 @@ def MetaStrOk (m : Meta) : Prop :=
 def ObjInDomain : Object → Prop
   | .node m l => MetaInDomain m ∧ IdOk m.id ∧ LocOk l ∧ MetaStrOk m
   | .way m ns => MetaInDomain m ∧ IdOk m.id ∧ WayInDomain ns ∧ MetaStrOk m
-  | .relation m ms => MetaInDomain m ∧ IdOk m.id ∧ RelInDomain ms ∧ MetaStrOk m ∧ ∀ x ∈ ms, x.role.length ≤ 1024
+  | .relation m ms => MetaInDomain m ∧ IdOk m.id ∧ RelInDomain ms ∧ MetaStrOk m ∧ ∀ x ∈ ms, StrOk x.role
   | .changeset .. => True
 
 /-- every string of the table is short enough for `decode_stringtable` -/
-def TabOk (t : Table) : Prop := ∀ s ∈ t.added, s.length ≤ 1024
+def TabOk (t : Table) : Prop := ∀ s ∈ t.added, StrOk s
 
-theorem tabOk_add (t : Table) (s : Bytes) (ht : TabOk t) (hs : s.length ≤ 1024) : TabOk (t.add s).2 := by
+theorem tabOk_add (t : Table) (s : Bytes) (ht : TabOk t) (hs : StrOk s) : TabOk (t.add s).2 := by
   unfold Table.add
   split
   · exact ht
@@ -43,7 +44,7 @@ theorem tabOk_add (t : Table) (s : Bytes) (ht : TabOk t) (hs : s.length ≤ 1024
     · exact ht x hx
     · exact hs
 
-theorem tabOk_addAll : ∀ (ss : List Bytes) (t : Table), TabOk t → (∀ s ∈ ss, s.length ≤ 1024) → TabOk (t.addAll ss).2
+theorem tabOk_addAll : ∀ (ss : List Bytes) (t : Table), TabOk t → (∀ s ∈ ss, StrOk s) → TabOk (t.addAll ss).2
   | [], _, ht, _ => ht
   | s :: ss, t, ht, hs => by
     simp only [Table.addAll]
